@@ -75,7 +75,7 @@ def _run(pm: ProgramModel, ctx: Ctx, mb: ModelBuilder, cd: Codec) -> None:
         root = mb.feature("Root")
         mb.relation(root, [mb.feature("T", ftype=EnumVal("FeatureType", k_, v))], 1, 1)
         cd.report("TYPES", f"type:{k_}", cd.roundtrip(mb.model(root, [])), f"feature of type {k_}", ("type",))
-    for card in ((0, 3), (2, 2), (1, -1), (0, 1), (1, 1)):
+    for card in ((0, 3), (2, 2), (1, -1), (0, 1), (1, 1), (2, 10), (9, 11), (5, 100), (10, 12)):
         root = mb.feature("Root")
         mb.relation(root, [mb.feature("M", card=card)], 0, 1)
         cd.report("FIELDS", f"fcard:{card[0]}..{'*' if card[1] == -1 else card[1]}", cd.roundtrip(mb.model(root, [])),
@@ -185,4 +185,5 @@ def _run(pm: ProgramModel, ctx: Ctx, mb: ModelBuilder, cd: Codec) -> None:
     from ..codec import stress_trees
     cd.report("OPS", "stress-shapes", cd.roundtrip(ctc_model(mb, stress_trees(mb))),
               "constraint shapes that stress normal forms", ("constraint", "constraint-count"))
+    cd.large(mb, ("AND", "OR", "IMPLIES", "EQUIVALENCE"))
     cd.finish_unowned()
